@@ -399,7 +399,7 @@ func keepAnalysisReplay(prop string, hs *HarnessSpec, v *Violation) string {
 	sort.Strings(cs)
 	meta := map[string]any{"property": prop, "analysis_only": true, "harness": hs.Name, "cases": v.Cases, "violation": v,
 		"rerun": []string{"/verif/bin/gosym", "check", "--prop", prop, "--only", hs.Name, "--case", strings.Join(cs, ",")},
-		"how": "structural property: replay re-runs the symbolic analysis of this harness instance against /repo's current SSA"}
+		"how":   "structural property: replay re-runs the symbolic analysis of this harness instance against /repo's current SSA"}
 	mb, _ := json.MarshalIndent(meta, "", " ")
 	os.WriteFile(filepath.Join(dir, "replay.json"), mb, 0o644)
 	return dir
